@@ -28,7 +28,8 @@ string, every oracle, both standards where the class differs.
   FALSE, with kernel-checked witnesses (`CALLBase_drops_text`).
 * `X_rejects_unbalanced` (C08): accepted and the children print balanced texts ⟹ the statement is balanced.
 * `match_total` (C06): no exception escapes from a modelled `match` except through a child or the tokeniser's `KeyError`;
-  the ONE exception is `Format_Item_List` (`ValueError`, `Format_Item_List_ValueError_witness`).
+  `Format_Item_List` included since /repo fa6d1cf (`Format_Item_List_hollerith_count_int`; regression witness
+  `Format_Item_List_blank_count_regression` for the former `ValueError` of `int("1 2")`).
 * `X_match_tostr_fixpoint` (C01): the printed text is matched again with the same items, under explicit conditions on the
   children's texts (each shown necessary in `Proofs/IoStmtFixpoint.lean`).
 
@@ -39,6 +40,7 @@ open Fp Fp.Splitline Fp.IoStmt
 open Fp.Combi (noBlank)
 
 variable {Node : Type}
+
 
 
 theorem Write_Stmt_tostr_match_tokens (o : Oracle Node) (ho : OracleTok o) (s : Str)
@@ -519,10 +521,10 @@ theorem Forall_Triplet_Spec_List_tostr_match_tokens (o : Oracle Node) (ho : Orac
       ((∀ n, Item.node n ∈ items → net (o.str n) = 0) → net t = 0) :=
   _root_.Fp.IoStmt.forallTripletSpecList_tostr_match_tokens o ho s items hm hs
 
-theorem match_total (std : Std) (o : Oracle Node) (c : ClassId) (s : Str) (e : Exc) (hc : c ≠ C.Format_Item_List)
+theorem match_total (std : Std) (o : Oracle Node) (c : ClassId) (s : Str) (e : Exc)
     (h : matchOf std o c s = some (.raises e)) :
     e = .keyError ∨ ∃ c' t, o.call c' t = .raises e :=
-  _root_.Fp.IoStmt.matchOf_total std o c s e hc h
+  _root_.Fp.IoStmt.matchOf_total std o c s e h
 
 theorem plan_match_total (plan : Str → Res (List Slot)) (hp : PlanTotal plan) (o : Oracle Node) (s : Str) (e : Exc)
     (h : (plan s).bind (runSlots o) = .raises e) :
@@ -531,20 +533,30 @@ theorem plan_match_total (plan : Str → Res (List Slot)) (hp : PlanTotal plan) 
 
 theorem Format_Item_List_match_total (std : Std) (o : Oracle Node) (s : Str) (e : Exc)
     (h : matchOf std o C.Format_Item_List s = some (.raises e)) :
-    e = .valueError ∨ e = .keyError ∨ ∃ c' t, o.call c' t = .raises e :=
+    e = .keyError ∨ ∃ c' t, o.call c' t = .raises e :=
   _root_.Fp.IoStmt.matchOf_formatItemList_total std o s e h
 
-theorem Format_Item_List_ValueError_witness  :
-    planFormatItemList "1 2habc".toList = .ok [.raise .valueError] :=
-  _root_.Fp.IoStmt.planFormatItemList_valueError_witness 
+theorem Format_Item_List_hollerith_count_int {cur m : Str} (h : hollerithPrefix cur = some m) :
+    ∃ n, pyInt (Combi.noSpaces m.dropLast) = some n :=
+  _root_.Fp.IoStmt.hollerith_count_int h
 
-theorem Format_Item_List_ValueError_escapes (o : Oracle Node) :
-    (planFormatItemList "1 2habc".toList).bind (runSlots o) = .raises .valueError :=
-  _root_.Fp.IoStmt.formatItemList_valueError_escapes o
+theorem Format_Item_List_blank_count_regression  :
+    planFormatItemList "1 2habc".toList = .ok [.fail] ∧
+    planFormatItemList "1 0h".toList = .ok [.fail] :=
+  _root_.Fp.IoStmt.formatItemList_hollerith_blank_no_raise 
 
-theorem Format_Item_List_raises_only_ValueError {s : Str} {slots : List Slot} (h : planFormatItemList s = .ok slots)
+theorem Format_Item_List_blank_count_no_escape (o : Oracle Node) :
+    (planFormatItemList "1 2habc".toList).bind (runSlots o) = .noMatch :=
+  _root_.Fp.IoStmt.formatItemList_hollerith_blank_no_escape o
+
+theorem Format_Item_List_blank_count_accepts  :
+    planFormatItemList "1 2habcdefghijkl, i3".toList
+      = .ok [.child C.Hollerith_Item "1 2habcdefghijkl".toList, .child C.Format_Item "i3".toList] :=
+  _root_.Fp.IoStmt.formatItemList_hollerith_blank_count 
+
+theorem Format_Item_List_raises_nothing {s : Str} {slots : List Slot} (h : planFormatItemList s = .ok slots)
     (hok : loopOK (2 * (lstrip s).length + 2) (lstrip s) = true) :
-    ∀ e, Slot.raise e ∈ slots → e = .valueError :=
+    ∀ e, Slot.raise e ∉ slots :=
   _root_.Fp.IoStmt.formatItemList_raises_ok h hok
 
 theorem Format_Item_match_total (std : Std) (o : Oracle Node) (s : Str) (e : Exc)
@@ -1286,6 +1298,7 @@ example : CallEndOK "CLOSE(10, status='keep')".toList ∧ SrmOK "CLOSE(10, statu
 example : TokId "(u) x".toList := by decide +kernel
 
 
+
 end Fp.IoStmt.Props
 
 #print axioms Fp.IoStmt.Props.Write_Stmt_tostr_match_tokens
@@ -1358,9 +1371,11 @@ end Fp.IoStmt.Props
 #print axioms Fp.IoStmt.Props.match_total
 #print axioms Fp.IoStmt.Props.plan_match_total
 #print axioms Fp.IoStmt.Props.Format_Item_List_match_total
-#print axioms Fp.IoStmt.Props.Format_Item_List_ValueError_witness
-#print axioms Fp.IoStmt.Props.Format_Item_List_ValueError_escapes
-#print axioms Fp.IoStmt.Props.Format_Item_List_raises_only_ValueError
+#print axioms Fp.IoStmt.Props.Format_Item_List_hollerith_count_int
+#print axioms Fp.IoStmt.Props.Format_Item_List_blank_count_regression
+#print axioms Fp.IoStmt.Props.Format_Item_List_blank_count_no_escape
+#print axioms Fp.IoStmt.Props.Format_Item_List_blank_count_accepts
+#print axioms Fp.IoStmt.Props.Format_Item_List_raises_nothing
 #print axioms Fp.IoStmt.Props.Format_Item_match_total
 #print axioms Fp.IoStmt.Props.Format_Item_2008_index_safe
 #print axioms Fp.IoStmt.Props.Format_Item_2008_guard_needed
